@@ -54,6 +54,7 @@ type T struct {
 	knownHit map[string]int
 	st      *Stats
 	exhausted bool
+	quiet   bool // shrinking run: do not write the failure file
 }
 
 func (t *T) record(d Draw) { t.draws = append(t.draws, d) }
@@ -231,7 +232,9 @@ func (t *T) Violation(key, format string, a ...any) bool {
 	t.failed = true
 	t.failKey = key
 	t.failMsg = msg
-	t.saveFailure()
+	if !t.quiet {
+		t.saveFailure()
+	}
 	if t.rt != nil {
 		t.rt.Fatalf("[%s] %s", key, msg)
 	}
